@@ -12,7 +12,7 @@ C03 / C04 / C05 decide; the rules built on this module decide what the *grammar 
 from __future__ import annotations
 
 from .core import AnalysisError
-from .pestlang import BUILTIN_SETS
+from .pestlang import BUILTIN_SETS, GENERAL_CATEGORIES, in_category
 
 
 class Node:
@@ -183,6 +183,8 @@ class PegRef:
             if pos < len(t) and any(lo <= ord(t[pos]) <= hi for lo, hi in BUILTIN_SETS[name]):
                 return pos + 1, []
             return None
+        if name in GENERAL_CATEGORIES:
+            return (pos + 1, []) if pos < len(t) and in_category(name, t[pos]) else None
         if name in ("PEEK", "POP"):
             if not self.stack or not t.startswith(self.stack[-1], pos):
                 return None
